@@ -45,6 +45,11 @@ fn main() {
                     eprintln!("selected job: {}", j.spec.to_string().chars().take(700).collect::<String>());
                 }
             }
+            // debugging aid: VX_SPEC_GREP=<text> runs only the jobs whose spec (JSON) contains the text
+            if let Ok(pat) = std::env::var("VX_SPEC_GREP") {
+                jobs.retain(|j| j.spec.to_string().contains(&pat));
+                eprintln!("{} jobs selected by VX_SPEC_GREP", jobs.len());
+            }
             // debugging aid: VX_PLAN_ONLY=1 prints the size of the plan (jobs, histories for history jobs) and stops
             if std::env::var("VX_PLAN_ONLY").is_ok() {
                 let mut hist: f64 = 0.0;
